@@ -247,3 +247,53 @@ func VerifC06PagedPinned(h *verifh.H) {
 	h.Assert(vJoin(vSorted(vRelPairs(all))) == vJoin(vSorted(fullBefore)), "a paged query continued after later writes returns the result set as of its pinned instant :: start="+start+" pred="+pred+" paged="+vJoin(vRelPairs(all))+" asof="+vJoin(fullBefore))
 	h.Observe("n", len(all))
 }
+
+// VerifC06MidWrite: an observer pins an instant t and reads the current state
+// while a writer (batch or transaction) is anywhere inside its write — waiting
+// for the lock, holding it before its commits, between its two commits, or
+// done (symbolic schedule over the marked boundaries of the write path). After
+// the writer has finished, the answers as of t are what the observer saw at t.
+// Known finding C06-stamp-before-commit: a writer stamps its versions with the
+// time it took the dataset lock, not with its commit; an instant pinned while
+// the writer holds the lock lies after that stamp although the write is not
+// visible yet, so the as-of-t answer later includes it.
+func VerifC06MidWrite(h *verifh.H) {
+	hs := vNewHistory(h, "d1", "d2")
+	first := &mVersion{ID: "ns0:e1", Props: map[string]string{"ns0:v": "x"}, Refs: map[string][]string{"ns0:p1": {"ns0:e2"}}}
+	h.Assert(hs.dss["d1"].StoreEntities([]*Entity{mkEntity(first)}) == nil, "first write")
+	next := drawVersion(h, []string{"ns0:e1", "ns0:e2"}, []string{"ns0:e2", "ns0:e3"}, famSmall)
+	asTxn := h.Choice("asTxn", 2) == 1
+	ds := hs.dss["d1"]
+	var werr error
+	var sn *vSnap
+	lockHeld := false
+	h.SymbolicSched(h.Param("preemptions", 1))
+	h.Go(func() {
+		if asTxn {
+			werr = hs.hub.Store.ExecuteTransaction(&Transaction{DatasetEntities: map[string][]*Entity{"d1": {mkEntity(next)}, "d2": {mkEntity(next)}}})
+		} else {
+			werr = ds.StoreEntities([]*Entity{mkEntity(next)})
+		}
+	})
+	h.Go(func() {
+		// is a writer inside its locked section right now?
+		if ds.WriteLock.TryLock() {
+			ds.WriteLock.Unlock()
+		} else {
+			lockHeld = true
+		}
+		sn = hs.vEvalNow(h)
+		sn.t = time.Now().UnixNano()
+	})
+	h.Assert(h.Wait(), "writer and observer complete")
+	h.Assert(werr == nil, "the write is accepted")
+	if !h.Symbolic() {
+		h.Pause(2 * time.Millisecond)
+	}
+	at := hs.vEvalAt(h, sn.t)
+	h.Known("C06-stamp-before-commit", lockHeld)
+	h.Assert(vJoin(at.lookups) == vJoin(sn.lookups), "lookup as of an instant pinned during a write equals the answer given then :: lockHeld="+vB(lockHeld)+" then="+vJoin(sn.lookups)+" now="+vJoin(at.lookups))
+	h.Known("C06-stamp-before-commit", lockHeld)
+	h.Assert(vJoin(at.rels) == vJoin(sn.rels), "relationship query as of an instant pinned during a write equals the answer given then :: lockHeld="+vB(lockHeld)+" then="+vJoin(sn.rels)+" now="+vJoin(at.rels))
+	h.Observe("asTxn", asTxn)
+}
